@@ -28,10 +28,13 @@ def pause_execution(pool: Any, execution_id: str, paused_by: str) -> None:
                 UPDATE pipeline_executions SET
                     status = %(status)s,
                     paused = %(paused)s::jsonb
-                WHERE id = %(id)s
+                WHERE id = %(id)s AND status IN (%(running)s, %(not_started)s)
                 """,
                 {
                     "id": execution_id,
+                    # Only a workflow that has not finished can be paused (see the SQLite sibling).
+                    "running": WorkflowStatus.RUNNING.name,
+                    "not_started": WorkflowStatus.NOT_STARTED.name,
                     "status": WorkflowStatus.PAUSED.name,
                     "paused": json.dumps(paused_to_dict(paused)),
                 },
